@@ -1,6 +1,6 @@
 """Shared pieces of the algorithm-level checks (C03, C04, C05, C06, C14): case strategy, running, well-formedness."""
 from hypothesis import strategies as st
-from vlib import gen, oracle, lib, configs
+from vlib import gen, oracle, lib, configs, mutate
 from vlib.lib import Violation
 
 
@@ -23,42 +23,44 @@ def alg_cases(draw, tier, pairs=None, schemes=None, shapes=None, kinds=None, fla
                            kinds=kinds))
     flag = draw(st.sampled_from(list(flags)))
     rng = draw(st.integers(0, 2 ** 16)) if cfg.rng else 0
-    # one case in four hands the algorithm a Dataset object that reached these rankings through an in-place mutation
-    # (built with an extra element, then remove_elements): flags, ids and caches must be those of the current rankings
-    via = draw(st.integers(0, 3)) == 0 and all(len(r) > 0 for r in ds["rankings"])
+    # one case in four hands the algorithm a Dataset OBJECT that reached these rankings through an in-place mutation,
+    # after having been used (by the same algorithm instance among others): see vlib/mutate.py
+    via = draw(mutate.via_strategy(ds["rankings"]))
     return {"config": name, "env": env, "scheme": scheme, "dataset": ds, "at_most_one": flag, "rng": rng,
-            "via_mutation": [draw(st.integers(0, 10 ** 6)) for _ in range(len(ds["rankings"]))] if via else None}
+            "via_mutation": via}
 
 
-def build_dataset(case):
-    rankings = case["dataset"]["rankings"]
+def build_dataset(case, warm=None):
     via = case.get("via_mutation")
-    if not via:
-        return lib.mk_dataset(rankings)
-    names = [e for r in rankings for b in r for e in b]
-    extra = (max([abs(e) for e in names] + [0]) + 4242) if all(isinstance(e, int) for e in names) else "zzextra"
-    bigger = []
-    for r, k in zip(rankings, via):
-        rr = [list(b) for b in r]
-        pos = k % (2 * len(rr) + 1)
-        if pos % 2 == 0:
-            rr.insert(pos // 2, [extra])
-        else:
-            rr[pos // 2] = rr[pos // 2] + [extra]
-        bigger.append(rr)
-    d = lib.mk_dataset(bigger)
-    d.unified_rankings()                      # anything computed before the mutation must not survive it
-    d.remove_elements({lib.Element(extra)})
-    return d
+    if isinstance(via, list):          # replay files recorded with the first version of this option
+        via = {"kind": "element", "pos": via, "where": 0}
+    return mutate.build(case["dataset"]["rankings"], via, warm)
 
 
 def run_case(case):
     """-> (status, consensus_or_exception, algorithm, dataset_obj, scheme_obj); unexpected library exceptions become
     Violations (undocumented failure mode)"""
-    d = build_dataset(case)
     s = lib.mk_scheme(case["scheme"])
-    st_, (status, val, alg) = lib.call(configs.run, case["config"], case["env"], d, s, case["at_most_one"],
-                                       case.get("rng", 0))
+    cfg = configs.BY_NAME[case["config"]]
+    import random
+
+    def go():
+        with configs.solver_env(case["env"]):
+            alg = cfg.factory()
+
+            def warm(d0):
+                # the SAME algorithm instance is used on the dataset before its mutation
+                alg.compute_consensus_rankings(d0, s, case["at_most_one"])
+            d = build_dataset(case, warm)
+            random.seed(case.get("rng", 0))
+            try:
+                cons = alg.compute_consensus_rankings(d, s, case["at_most_one"])
+            except configs.REFUSALS as e:
+                return "refused", e, alg, d
+            except configs.IncompatibleArgumentsException as e:
+                return "usage", e, alg, d
+            return "ok", cons, alg, d
+    st_, (status, val, alg, d) = lib.call(go)
     return status, val, alg, d, s
 
 
